@@ -140,6 +140,22 @@ pub fn check_core(
     }
     info.class_if(cfg.invert, "invert");
     info.class_if(cfg.warm.is_some(), "searcher_reused_after_another_input");
+    info.class_if(
+        {
+            let mut run = 0usize;
+            let mut best = 0usize;
+            for l in &lines {
+                if l.end - l.start <= cfg.term.bytes().len() && !success[lines.iter().position(|x| x.start == l.start).unwrap_or(0)] {
+                    run += 1;
+                    best = best.max(run);
+                } else {
+                    run = 0;
+                }
+            }
+            best >= 256
+        },
+        "run_of_256_or_more_skipped_empty_lines",
+    );
     info.class_if(cfg.passthru, "passthru");
     info.class_if(exp.stopped_at.is_some(), "stopped_on_nonmatch");
     info.class_if(out.data_reads >= 3, "reader_refilled>=2");
@@ -365,6 +381,15 @@ pub fn gen_case(t: &mut Tape) -> Case {
             }
         }
         lines.push(Bs(l));
+    }
+    if t.chance(1, 10) {
+        // a long run of empty lines between two lines: whatever is skipped there must still be
+        // counted (the line counter works on blocks of bytes)
+        let at = t.below(lines.len() + 1);
+        let run = 250 + t.below(600);
+        for _ in 0..run {
+            lines.insert(at, Bs(vec![]));
+        }
     }
     Case {
         lines,
